@@ -1495,7 +1495,16 @@ impl Gen {
                 4 => {
                     let pos: f64 = o.total - o.cash;
                     let base = o.cash.max(0.0);
-                    let amt = match self.rng.usize(8) {
+                    let one_pos: f64 = {
+                        let vals: Vec<f64> = o.pos_value.values().filter_map(|v| *v).filter(|v| *v > 0.0).collect();
+                        if vals.is_empty() { 0.0 } else { *self.rng.pick(&vals) }
+                    };
+                    let amt = match self.rng.usize(11) {
+                        // exactly the value of one position / of all positions on top of the free cash:
+                        // the whole-position and the partial-sale branch meet here
+                        8 => base + one_pos,
+                        9 => base + pos,
+                        10 => one_pos.max(base + 1.0),
                         0 => base + pos * 0.1,
                         1 => base + pos * 0.5,
                         2 => base + pos * 0.9,
